@@ -151,6 +151,196 @@ def presence_test(cond: ast.AST, outcome: bool = True) -> Optional[Tuple[str, bo
     return None
 
 
+def eval_bool(e: ast.AST, env: Dict[str, bool]) -> Optional[bool]:
+    """truth value of a condition built from and / or / not over atoms whose presence (see presence_test) is given by env"""
+    if isinstance(e, ast.BoolOp):
+        vals = [eval_bool(v, env) for v in e.values]
+        if isinstance(e.op, ast.And):
+            if any(v is False for v in vals):
+                return False
+            return None if any(v is None for v in vals) else True
+        if any(v is True for v in vals):
+            return True
+        return None if any(v is None for v in vals) else False
+    if isinstance(e, ast.UnaryOp) and isinstance(e.op, ast.Not):
+        v = eval_bool(e.operand, env)
+        return None if v is None else not v
+    t = norm(e)
+    if t in env:
+        return env[t]
+    pt = presence_test(e, True)
+    if pt and pt[0] in env:
+        return env[pt[0]] == pt[1]
+    return None
+
+
+def filter_semantics(fn: ast.AST, atoms: List[str]) -> Optional[Dict[Tuple[bool, ...], bool]]:
+    """fn returns an order-preserving sub-sequence of its first parameter, either `return [v for v in P if C]` or
+    `out = []; for v in P: ...; out.append(v) ...; return out`.  Returns, for every truth assignment of the atoms (texts with
+    `{v}` standing for the element), whether the element is kept; None if fn has neither form or an unknown atom decides."""
+    import itertools
+
+    from .paths import enumerate_paths
+
+    P = fn.args.args[0].arg
+    rets = [r for r in walk_local(fn) if isinstance(r, ast.Return)]
+    if len(rets) != 1 or rets[0].value is None:
+        return None
+    rv = rets[0].value
+    table: Dict[Tuple[bool, ...], bool] = {}
+    if isinstance(rv, ast.Name):
+        ds = [x for x in stmts_local(fn.body) if rv.id in assigned_names(x) and not isinstance(x, (ast.If, ast.For, ast.While, ast.Try, ast.With))]
+        if len(ds) == 1 and isinstance(ds[0], ast.Assign) and isinstance(ds[0].value, ast.ListComp) and ds[0] in fn.body \
+                and not any(isinstance(n, ast.Name) and n.id == rv.id and n is not rv and n not in ds[0].targets for n in walk_local(fn)):
+            rv = ds[0].value
+    if isinstance(rv, ast.ListComp) and len(rv.generators) == 1 and norm(rv.generators[0].iter) == P and norm(rv.elt) == norm(rv.generators[0].target):
+        v = norm(rv.generators[0].target)
+        cond = ast.BoolOp(op=ast.And(), values=list(rv.generators[0].ifs)) if len(rv.generators[0].ifs) > 1 else (rv.generators[0].ifs[0] if rv.generators[0].ifs else None)
+        for combo in itertools.product([False, True], repeat=len(atoms)):
+            env = {a.replace("{v}", v): b for a, b in zip(atoms, combo)}
+            r = True if cond is None else eval_bool(cond, env)
+            if r is None:
+                return None
+            table[combo] = r
+        return table
+    if isinstance(rv, ast.Name):
+        out = rv.id
+        loops = [s for s in fn.body if isinstance(s, ast.For) and norm(s.iter) == P and isinstance(s.target, ast.Name)]
+        inits = [s for s in fn.body if isinstance(s, ast.Assign) and norm(s.targets[0]) == out and norm(s.value) in ("[]", "list()")]
+        if len(loops) != 1 or len(inits) != 1 or rets[0] not in fn.body:
+            return None
+        loop = loops[0]
+        v = loop.target.id
+        # the output list is touched only by `out.append(v)` inside the loop
+        for n in walk_local(fn):
+            if isinstance(n, ast.Name) and n.id == out and n is not rv and not (isinstance(n.ctx, ast.Store) and n.parent is inits[0]):
+                par = n.parent
+                if not (isinstance(par, ast.Attribute) and par.attr == "append" and isinstance(par.parent, ast.Call) and len(par.parent.args) == 1
+                        and norm(par.parent.args[0]) == v and loop.lineno <= n.lineno <= loop.end_lineno):
+                    return None
+        if v in {x for s in stmts_local(loop.body) for x in assigned_names(s)} or loop.orelse:
+            return None
+        paths = enumerate_paths(loop.body)
+        for combo in itertools.product([False, True], repeat=len(atoms)):
+            env = {a.replace("{v}", v): b for a, b in zip(atoms, combo)}
+            kept = set()
+            for p in paths:
+                consistent = True
+                for ev in p.events:
+                    if ev[0] == "cond":
+                        r = eval_bool(ev[1], env)
+                        if r is None:
+                            return None
+                        if r != ev[2]:
+                            consistent = False
+                            break
+                if not consistent:
+                    continue
+                if p.exit not in ("fall", "continue"):
+                    return None
+                n_app = sum(1 for ev in p.events if ev[0] == "stmt" and isinstance(ev[1], ast.Expr) and isinstance(ev[1].value, ast.Call)
+                            and norm(ev[1].value.func) == f"{out}.append")
+                if n_app > 1:
+                    return None
+                kept.add(n_app == 1)
+            if len(kept) != 1:
+                return None
+            table[combo] = kept.pop()
+        return table
+    return None
+
+
+class Locals:
+    """Forward substitution of single-definition locals, so that a rule can compare the *expanded* form of an expression:
+    `off = c.span()[-1]; text[off:]` reads as `text[c.span()[-1]:]`.  A name is substituted only if it is bound exactly once
+    in the function (a plain `name = expr`, not a parameter / loop target / unpacking) and no free name of its definition is
+    re-bound between the definition and the use (or anywhere in a loop that contains the use but not the definition)."""
+
+    def __init__(self, fn: ast.AST):
+        self.fn = fn
+        counts: Dict[str, int] = {}
+        self.defs: Dict[str, ast.Assign] = {}
+        self.bindings: Dict[str, List[ast.stmt]] = {}
+        params = {a.arg for a in fn.args.args + fn.args.kwonlyargs} if hasattr(fn, "args") else set()
+        for s in stmts_local(fn.body):
+            if not isinstance(s, (ast.FunctionDef, ast.AsyncFunctionDef, ast.ClassDef, ast.If, ast.While, ast.For, ast.Try, ast.With, ast.Match)):
+                for n in assigned_names(s):
+                    counts[n] = counts.get(n, 0) + 1
+                    self.bindings.setdefault(n, []).append(s)
+            elif isinstance(s, (ast.If, ast.While)):
+                for n in assigned_names(s.test):  # walrus
+                    counts[n] = counts.get(n, 0) + 1
+                    self.bindings.setdefault(n, []).append(s)
+            if isinstance(s, ast.Try):
+                for h in s.handlers:
+                    if h.name:
+                        counts[h.name] = counts.get(h.name, 0) + 1
+                        self.bindings.setdefault(h.name, []).append(s)
+            if isinstance(s, ast.For):
+                for n in assigned_names(s.target):
+                    counts[n] = counts.get(n, 0) + 1
+                    self.bindings.setdefault(n, []).append(s)
+            if isinstance(s, ast.With):
+                for it in s.items:
+                    if it.optional_vars is not None:
+                        for n in assigned_names(it.optional_vars):
+                            counts[n] = counts.get(n, 0) + 1
+                            self.bindings.setdefault(n, []).append(s)
+            if isinstance(s, ast.Assign) and len(s.targets) == 1 and isinstance(s.targets[0], ast.Name):
+                self.defs[s.targets[0].id] = s
+        for n in list(self.defs):
+            if counts.get(n, 0) != 1 or n in params:
+                del self.defs[n]
+
+    def _stable(self, d: ast.Assign, use: ast.AST) -> bool:
+        ul = getattr(use, "lineno", None)
+        if ul is None:
+            return False
+        loops_use = []
+        cur = use
+        while cur is not None and cur is not self.fn:
+            cur = getattr(cur, "parent", None)
+            if isinstance(cur, (ast.For, ast.While)):
+                loops_use.append(cur)
+        loops_def = []
+        cur = d
+        while cur is not None and cur is not self.fn:
+            cur = getattr(cur, "parent", None)
+            if isinstance(cur, (ast.For, ast.While)):
+                loops_def.append(cur)
+        only_use = [l for l in loops_use if l not in loops_def]
+        for n in names_in(d.value):
+            for b in self.bindings.get(n, []):
+                if b is d:
+                    continue
+                if d.lineno < b.lineno <= ul:
+                    return False
+                if any(l.lineno <= b.lineno <= l.end_lineno for l in only_use):
+                    return False
+        return d.lineno < ul or bool(loops_def)
+
+    def expand(self, e: ast.AST, at: Optional[ast.AST] = None, depth: int = 5) -> ast.AST:
+        import copy as _copy
+
+        at = at if at is not None else e
+        loc = self
+
+        class T(ast.NodeTransformer):
+            def visit_Name(self, node: ast.Name):
+                if isinstance(node.ctx, ast.Load) and node.id in loc.defs and depth > 0 and loc._stable(loc.defs[node.id], at):
+                    return loc.expand(_copy.deepcopy(loc.defs[node.id].value), at, depth - 1)
+                return node
+
+            def visit_Lambda(self, node):
+                return node
+
+        new = T().visit(_copy.deepcopy(e))
+        return new
+
+    def text(self, e: ast.AST, at: Optional[ast.AST] = None) -> str:
+        return norm(self.expand(e, at))
+
+
 def call_name(call: ast.Call) -> Optional[str]:
     return dotted(call.func)
 
